@@ -283,7 +283,7 @@ class _Commit:
     def __init__(self, idx, intid, spec):
         self.idx = idx
         self.intid = intid
-        self.hexsha = hashlib.sha1(f"c06-{intid}".encode()).hexdigest()
+        self.hexsha = commit_sha(intid)
         self.message = spec["m"]
         self.committed_date = spec["t"]
         self.author = _Author()
@@ -351,6 +351,237 @@ class MockRepo:
                 yield n, h
 
 
+# ------------------------------------------------------------------ repositories whose refs are on disk
+# The mock above overrides iter_refs, so GitRepo._iter_packed_refs / _iter_refs_files / iter_refs (the text level of
+# the report: where the branch heads and the tags come from) would never run.  [DirRepo] is the library's own GitRepo
+# over a real '.git' directory written by the harness (packed-refs + loose ref files; no git binary, no GitPython:
+# commit objects stay in memory and get_ref_commit -- GitPython's SymbolicReference(...).commit -- is a stand-in).
+PACK_HEADER = "# pack-refs with: peeled fully-peeled sorted "
+HEX = "0123456789abcdef"
+
+
+def commit_sha(intid):
+    return hashlib.sha1(f"c06-{intid}".encode()).hexdigest()
+
+
+def write_disk(git_dir, disk):
+    import shutil
+    shutil.rmtree(os.path.join(git_dir, "refs"), ignore_errors=True)
+    try:
+        os.remove(os.path.join(git_dir, "packed-refs"))
+    except OSError:
+        pass
+    os.makedirs(os.path.join(git_dir, "refs"), exist_ok=True)
+    if disk.get("packed") is not None:
+        with open(os.path.join(git_dir, "packed-refs"), "wb") as f:
+            f.write(disk["packed"].encode("latin-1"))
+    for name, content, _resolved in disk["loose"]:
+        path = os.path.join(git_dir, *name.split("/"))
+        os.makedirs(os.path.dirname(path), exist_ok=True)
+        with open(path, "wb") as f:
+            f.write(content.encode("latin-1"))
+
+
+def dir_repo_class(ghist):
+    class _Resolved:
+        def __init__(self, hexsha):
+            self.hexsha = hexsha
+
+    class DirRepo(ghist.GitRepo):
+        def __init__(self, root, case):            # deliberately no git.Repo.__init__
+            self._git_dir = os.path.join(root, ".git")
+            os.makedirs(self._git_dir, exist_ok=True)
+            self.fetches = 0
+            self._mock = None
+            self._remotes = {}
+            self._resolved = {}
+            self.load(case)
+
+        git_dir = property(lambda self: self._git_dir)
+        working_dir = property(lambda self: self._git_dir)
+        remotes = property(lambda self: self._remotes)
+        commits = property(lambda self: self._mock.commits)
+
+        def load(self, case):
+            if "commits" in case:
+                self._mock = MockRepo(case)
+                self._remotes = {k: _Remote(v.refs, self) for k, v in self._mock.remotes.items()}
+            write_disk(self._git_dir, case["disk"])
+            self._resolved = {name: resolved for name, _c, resolved in case["disk"]["loose"]}
+
+        def commit(self, hexsha):
+            return self._mock.by_sha[hexsha]
+
+        def get_ref_commit(self, ref_name):        # stand-in for GitPython
+            return _Resolved(self._resolved[ref_name])
+
+    return DirRepo
+
+
+def _path_conflict(name, names):
+    return any(n == name or n.startswith(name + "/") or name.startswith(n + "/") for n in names)
+
+
+def gen_layout(rng, branches, tags, seed=None):
+    """branches: [(full ref name, commit hexsha)], tags: [(tag name, commit hexsha)] (names unique)
+    -> {"packed": text | None, "loose": [[ref name, file content, hexsha get_ref_commit resolves it to]], "seed": seed}
+    a '.git' directory that says exactly this, written the way git writes it (plus what else such a directory
+    contains): refs packed (after clone / gc), loose (after fetch / push), or both (then the packed value is stale);
+    annotated tags (tag object + '^' peeled line) and lightweight ones; refs of other remotes, local branches, stash,
+    notes; the symbolic refs/remotes/<remote>/HEAD."""
+    def other():
+        return "".join(rng.choice(HEX) for _ in range(40))
+    entries = []        # (ref name, first hexsha, peeled hexsha or None)
+    loose = []
+    mode = rng.choice(["packed", "packed", "packed", "mixed", "mixed", "loose"])
+
+    def place(p_loose):
+        if mode == "packed":
+            return "packed"
+        if mode == "loose":
+            return "loose"
+        r = rng.random()
+        return "loose" if r < p_loose else "both" if r < p_loose + 0.25 else "packed"
+    for name, sha in branches:
+        where = place(0.4)
+        if where != "packed" and _path_conflict(name, [x[0] for x in loose]):
+            where = "packed"
+        if where in ("packed", "both"):
+            entries.append((name, sha if where == "packed" else other(), None))
+        if where in ("loose", "both"):
+            loose.append([name, sha + "\n", sha])
+    p_annot = rng.choice([0.0, 0.6, 0.6, 1.0])
+    for tag, sha in tags:
+        name = "refs/tags/" + tag
+        annotated = rng.random() < p_annot
+        obj = other() if annotated else sha
+        where = place(0.2)
+        if where != "packed" and _path_conflict(name, [x[0] for x in loose]):
+            where = "packed"
+        if where == "packed":
+            entries.append((name, obj, sha if annotated else None))
+        elif where == "both":
+            entries.append((name, other(), other() if rng.random() < 0.5 else None))
+        if where in ("loose", "both"):
+            loose.append([name, obj + "\n", sha])
+    remotes = sorted({n.split("/")[2] for n, _ in branches if n.startswith("refs/remotes/")}) or ["origin"]
+    # what else lives in such a directory: none of it belongs to the report
+    noise = []
+    for _ in range(rng.choice([0, 2, 4, 7])):
+        r = rng.choice(remotes)
+        nm = rng.choice(["refs/heads/master", "refs/heads/release/1.2", "refs/heads/release/9.9", "refs/stash", "refs/notes/commits",
+                         f"refs/remotes/{r}x/release/9.9", f"refs/remotes/{r}x/master", f"refs/remotes/x{r}/release/1.2",
+                         f"refs/remotes/{r}", "refs/remotes/zz/master", "refs/remotes/zz/release/1.2",
+                         f"refs/heads/{r}/release/9.9", "refs/tagsx/build_1_master_success", "refs/tags/v%d.0" % rng.randrange(1, 9),
+                         "refs/tags/zz-last-%d" % rng.randrange(9), "refs/tags/0-first", "refs/zz/last"])
+        if _path_conflict(nm, [e[0] for e in entries] + [x[0] for x in loose] + [x[0] for x in noise]):
+            continue
+        peel = other() if (nm.startswith("refs/tags/") and rng.random() < 0.8) else None
+        noise.append((nm, other(), peel))
+    for e in noise:
+        if mode != "packed" and rng.random() < 0.3 and not _path_conflict(e[0], [x[0] for x in loose]):
+            loose.append([e[0], e[1] + "\n", e[2] or e[1]])
+        else:
+            entries.append(e)
+    for r in remotes:
+        if rng.random() < 0.5 and not _path_conflict(f"refs/remotes/{r}/HEAD", [x[0] for x in loose]):
+            tgt = [sha for n, sha in branches if n in (f"refs/remotes/{r}/master", f"refs/remotes/{r}/main")]
+            loose.append([f"refs/remotes/{r}/HEAD", f"ref: refs/remotes/{r}/master\n", tgt[0] if tgt else other()])
+    if rng.random() < 0.75:
+        entries.sort(key=lambda e: e[0])          # 'sorted': the annotated tags come after every branch
+    else:
+        rng.shuffle(entries)
+    eol = "\r\n" if rng.random() < 0.1 else "\n"
+    sep = rng.choice([" "] * 8 + ["\t", "  "])
+    lines = []
+    r = rng.random()
+    if r < 0.8:
+        lines.append(PACK_HEADER)
+    elif r < 0.9:
+        lines.append(rng.choice(["# pack-refs with: peeled", "# pack-refs with: peeled fully-peeled", "# pack-refs with: peeled sorted "]))
+    for name, sha, peel in entries:
+        if rng.random() < 0.03:
+            lines.append("")
+        lines.append(sha + sep + name)
+        if peel is not None:
+            lines.append("^" + peel)
+    text = eol.join(lines) + (eol if lines and rng.random() < 0.9 else "")
+    packed = text
+    if not entries and rng.random() < 0.5:
+        packed = None
+    loose.sort(key=lambda x: x[0])
+    return {"packed": packed, "loose": loose, "seed": seed}
+
+
+_HEX40 = re.compile(r"[0-9a-f]{40}\Z")
+
+
+def ref_semantics(disk):
+    """reference reading of a '.git' refs directory (what git says the refs are): {full ref name: commit hexsha}, or
+    None when packed-refs is not a well-formed file (then the property says nothing).  A '^' line belongs to the ref
+    line immediately before it; a loose file wins over a packed entry."""
+    refs = {}
+    text = disk.get("packed")
+    if text is not None:
+        last = None
+        for raw in re.split(r"\r\n|\n|\r", text):
+            if raw == "":
+                continue
+            if raw.startswith("#"):
+                if not raw.startswith("# pack-refs with:") or "peeled" not in raw:
+                    return None
+                continue
+            if raw.startswith("^"):
+                if last is None or not _HEX40.match(raw[1:]):
+                    return None
+                refs[last] = raw[1:]
+                last = None
+                continue
+            m = re.match(r"([0-9a-f]{40})[ \t]+(refs/[!-~]+)\Z", raw)
+            if not m or m.group(2) in refs:
+                return None
+            last = m.group(2)
+            refs[last] = m.group(1)
+    for name, _content, resolved in disk["loose"]:
+        refs[name] = resolved
+    return refs
+
+
+def case_layout(rng, case):
+    """a layout for the repository state of a report case, or None when the state cannot be written to disk
+    (repeated ref / tag names)"""
+    shas = [commit_sha(i) for i in (case.get("ids") or range(len(case["commits"])))]
+    branches = [("refs/remotes/" + n, shas[i]) for n, i in case["refs"]]
+    tags = [(tag_str(t), shas[i]) for i, spec in enumerate(case["commits"]) for t in spec.get("tags", [])]
+    if len({n for n, _ in branches}) != len(branches) or len({t for t, _ in tags}) != len(tags):
+        return None
+    if any(_path_conflict(n, [m for m, _ in branches if m is not n]) for n, _ in branches) and rng.random() < 0.5:
+        pass                                        # D/F conflicts are resolved by gen_layout (one of them stays packed)
+    seed = rng.randrange(1 << 30)
+    import random
+    disk = gen_layout(random.Random(seed), branches, tags, seed)
+    sem = ref_semantics(disk)
+    want = dict(branches)
+    want.update({"refs/tags/" + t: sha for t, sha in tags})
+    if sem is None or any(sem.get(k) != v for k, v in want.items()):
+        raise AssertionError("harness: generated layout does not say what the case says")
+    return disk
+
+
+def relayout(case):
+    """the same layout decisions for a (shrunk) case"""
+    if "disk" not in case:
+        return case
+    import random
+    c = dict(case)
+    shas = [commit_sha(i) for i in (case.get("ids") or range(len(case["commits"])))]
+    branches = [("refs/remotes/" + n, shas[i]) for n, i in case["refs"]]
+    tags = [(tag_str(t), shas[i]) for i, spec in enumerate(case["commits"]) for t in spec.get("tags", [])]
+    seed = case["disk"].get("seed") or 0
+    c["disk"] = gen_layout(random.Random(seed), branches, tags, seed)
+    return c
+
+
 _ANSI = re.compile(r"\x1b\[[0-9;:]*m")
 
 
@@ -376,6 +607,8 @@ def _parse_printed(text, repo):
 def impl_run(case):
     k = case["k"]
     from ak import ghist
+    import logging
+    logging.getLogger("ak.ghist").setLevel(logging.ERROR)      # "Can't process .../packed-refs" when the file is missing
     if k == "sortkey":
         try:
             items = ghist.BranchName(case["name"])._sort_items
@@ -390,6 +623,9 @@ def impl_run(case):
         except Exception as e:
             return {"r": ["err", SX.exc_name(e)]}
         return {"r": ["ok", (v > 0) - (v < 0)], "lt": bool(lt)}
+
+    if k == "refs":
+        return _impl_refs(ghist, case)
 
     class HRepo(ghist.ProjectRepo):
         _SAVED_BUILD_NUM_SOURCES = ["VERSION"]
@@ -425,10 +661,7 @@ def impl_run(case):
             res["printed"] = ["err", SX.exc_name(e)]
         return res
 
-    if k == "session":
-        # ONE ProjectRepo / ReposCollection for the whole session; the repository changes between the reports
-        steps = case["steps"]
-        repo = MockRepo(steps[0])
+    def _run_session(ghist, HRepo, one_report, repo, steps):
         try:
             coll = ghist.ReposCollection({"r": HRepo("r", repo, steps[0]["remote"])})
         except Exception as e:
@@ -446,12 +679,74 @@ def impl_run(case):
             obs.append(one_report(coll, repo, st["text"]))
         return {"steps": obs}
 
-    repo = MockRepo(case)
+    if k == "session":
+        # ONE ProjectRepo / ReposCollection for the whole session; the repository changes between the reports
+        steps = case["steps"]
+        tmp = None
+        if "disk" in steps[0]:
+            import tempfile
+            tmp = tempfile.mkdtemp(prefix="c06-")
+            repo = dir_repo_class(ghist)(tmp, steps[0])
+        else:
+            repo = MockRepo(steps[0])
+        try:
+            return _run_session(ghist, HRepo, one_report, repo, steps)
+        finally:
+            if tmp:
+                import shutil
+                shutil.rmtree(tmp, ignore_errors=True)
+
+    tmp = None
+    if "disk" in case:
+        import tempfile
+        tmp = tempfile.mkdtemp(prefix="c06-")
+        repo = dir_repo_class(ghist)(tmp, case)
+    else:
+        repo = MockRepo(case)
     try:
-        coll = ghist.ReposCollection({"r": HRepo("r", repo, case["remote"])})
-    except Exception as e:
-        return {"r": ["err", SX.exc_name(e)]}
-    return one_report(coll, repo, case["text"])
+        try:
+            coll = ghist.ReposCollection({"r": HRepo("r", repo, case["remote"])})
+        except Exception as e:
+            return {"r": ["err", SX.exc_name(e)]}
+        return one_report(coll, repo, case["text"])
+    finally:
+        if tmp:
+            import shutil
+            shutil.rmtree(tmp, ignore_errors=True)
+
+
+def _impl_refs(ghist, case):
+    """the refs layer alone, on a '.git' directory with the case's packed-refs text and loose ref files"""
+    import shutil
+    import tempfile
+    tmp = tempfile.mkdtemp(prefix="c06-")
+    try:
+        repo = dir_repo_class(ghist)(tmp, case)
+        prefixes = case["prefixes"]
+
+        def attempt(f):
+            try:
+                return ["ok", f()]
+            except Exception as e:
+                return ["err", SX.exc_name(e)]
+
+        def it():
+            got = [[n, h] for n, h in repo.iter_refs(*prefixes)]
+            # the loose refs come in directory order: sort them (they are the entries without a hexsha)
+            return sorted([x for x in got if x[1] is None], key=lambda x: x[0]) + [x for x in got if x[1] is not None]
+
+        def bmap():
+            pr = ghist.ProjectRepo("r", repo, case["remote"])
+            return sorted([k, v] for k, v in pr.make_branch_refs_map().items())
+
+        def tmap():
+            pr = ghist.ProjectRepo("r", repo, case["remote"])
+            return sorted([sha, bt.build, bt.branch_str] for sha, bts in pr.make_buildtags_map().items() for bt in bts)
+        return {"iter": attempt(it),
+                "packed": attempt(lambda: [[n, h] for n, h in repo._iter_packed_refs(list(prefixes))]),
+                "bmap": attempt(bmap), "tags": attempt(tmap)}
+    finally:
+        shutil.rmtree(tmp, ignore_errors=True)
 
 
 # ------------------------------------------------------------------ model side
@@ -459,15 +754,35 @@ def _cnat(n):
     return f"{int(n)}%nat"
 
 
-def coq_history(case):
+def coq_history(case, blank=False):
+    """blank: heads and tags are left out (the model reads them from the ref files of the case)"""
     cs = []
     for spec in case["commits"]:
-        tags = SX.clist(f"({t[0]}, {t[1]}, {t[2]}, {t[3]})" for t in commit_tags(spec))
+        tags = SX.clist(f"({t[0]}, {t[1]}, {t[2]}, {t[3]})" for t in ([] if blank else commit_tags(spec)))
         ps = SX.clist(_cnat(p) for p in spec["p"])
         cs.append(f"mkCommit {ps} {SX.cstr(spec['m'])} {SX.cZ(spec['t'])} {tags}")
-    refs = SX.clist(f"({SX.cstr(n)}, {_cnat(i)})" for n, i in case["refs"]
+    refs = SX.clist(f"({SX.cstr(n)}, {_cnat(0 if blank else i)})" for n, i in case["refs"]
                     if n.startswith(case["remote"] + "/"))
     return f"(mkHistory {SX.clist(cs)} {SX.cstr(case['remote'])} {refs} {SX.cstr(case['text'])})"
+
+
+def coq_disk(disk):
+    packed = SX.copt(disk.get("packed"), SX.cstr)
+    loose = SX.clist(f"({SX.cstr(n)}, {SX.cstr(res)})" for n, _c, res in sorted(disk["loose"], key=lambda x: x[0]))
+    return f"(mkDisk {packed} {loose})"
+
+
+def coq_dinfo(case):
+    if "disk" not in case:
+        return "None"
+    shas = SX.clist(SX.cstr(commit_sha(i)) for i in (case.get("ids") or range(len(case["commits"]))))
+    table = []
+    for spec in case["commits"]:
+        for t in spec.get("tags", []):
+            tt = tag_tuple(t, spec.get("ver"))
+            if tt is not None:
+                table.append(f"({SX.cstr(tag_str(t))}, ({tt[0]}, {tt[1]}, {tt[2]}, {tt[3]}))")
+    return f"(Some (mkDI {coq_disk(case['disk'])} {shas} {SX.clist(table)}))"
 
 
 def coq_case(case, obs):
@@ -476,9 +791,14 @@ def coq_case(case, obs):
         return f"SortKey {SX.cstr(case['name'])}"
     if k == "cmp":
         return f"Cmp {SX.cstr(case['a'])} {SX.cstr(case['b'])}"
+    if k == "refs":
+        table = SX.clist(f"({SX.cstr(t)}, ({SX.cZ(n)}, {SX.cstr(b)}))" for t, n, b in case["table"])
+        return (f"Refs {coq_disk(case['disk'])} {SX.clist(SX.cstr(x) for x in case['prefixes'])} "
+                f"{SX.cstr(case['remote'])} {table} ({_csx(_refs_observation(obs))})")
     if k == "session":
-        return "Session " + SX.clist(f"({SX.cbool(_checkable(st, None))}, {coq_history(st)})" for st in case["steps"])
-    return f"Report {SX.cbool(_checkable(case, obs))} {coq_history(case)}"
+        return "Session " + SX.clist(f"({SX.cbool(_checkable(st, None))}, {coq_dinfo(st)}, "
+                                     f"{coq_history(st, 'disk' in st)})" for st in case["steps"])
+    return f"Report {SX.cbool(_checkable(case, obs))} {coq_dinfo(case)} {coq_history(case, 'disk' in case)}"
 
 
 def in_model(case, obs):
@@ -487,6 +807,8 @@ def in_model(case, obs):
     if case["k"] in ("sortkey", "cmp"):
         texts = [case["name"]] if case["k"] == "sortkey" else [case["a"], case["b"]]
         return all(t.isascii() for t in texts)
+    if case["k"] == "refs":
+        return (case["disk"].get("packed") or "").isascii()
     return True
 
 
@@ -508,6 +830,8 @@ def expected_sx(case, obs):
     k = case["k"]
     if k == "session":
         return SX.dumps([_expected_report(st, o) for st, o in zip(case["steps"], obs["steps"])])
+    if k == "refs":
+        return "()"          # compared inside Coq (Run.v: Refs ... expected)
     r = obs["r"]
     if k == "sortkey":
         if r[0] != "ok":
@@ -516,6 +840,25 @@ def expected_sx(case, obs):
     if k == "cmp":
         return SX.dumps(r[1]) if r[0] == "ok" else SX.dumps(SX.err(r[1]))
     return SX.dumps(_expected_report(case, obs))
+
+
+def _csx(x):
+    if isinstance(x, bool):
+        x = int(x)
+    if isinstance(x, int):
+        return f"SZ {SX.cZ(x)}"
+    if x and all(isinstance(e, int) and not isinstance(e, bool) for e in x):
+        return f"sx_str {SX.cZlist(x)}"
+    return "SL " + SX.clist(_csx(e) for e in x)
+
+
+def _refs_observation(obs):
+    def enc(r, f):
+        return SX.err(r[1]) if r[0] != "ok" else SX.ok([f(x) for x in r[1]])
+    return ([enc(obs["iter"], lambda x: [SX.s(x[0]), SX.opt(None if x[1] is None else SX.s(x[1]))]),
+                         enc(obs["packed"], lambda x: [SX.s(x[0]), SX.s(x[1])]),
+                         enc(obs["bmap"], lambda x: [SX.s(x[0]), SX.s(x[1])]),
+                         enc(obs["tags"], lambda x: [SX.s(x[0]), x[1], SX.s(x[2])])])
 
 
 # signatures of the oracle that correspond to clauses (A)-(D) of coq/C06/Spec.v:branch_ok
@@ -750,6 +1093,8 @@ def oracle(case, obs):
             return [("cmp-wrong", f"BranchName({case['a']!r}).cmp({case['b']!r}) has sign {r[1]} (lt={obs.get('lt')}), "
                      f"numeric-aware comparison gives {want}")]
         return []
+    if k == "refs":
+        return _uniq(_oracle_refs(case, obs))
     if k == "session":
         out = []
         for j, (st, o) in enumerate(zip(case["steps"], obs["steps"])):
@@ -759,6 +1104,33 @@ def oracle(case, obs):
             out.append(("report-raises", "the session did not produce every report"))
         return _uniq(out)
     return _uniq(_oracle_report(case, obs))
+
+
+def _oracle_refs(case, obs):
+    """the heads of the branches of the remote and the commits of the build tags are what the repository says
+    (reference reading of the ref files, ref_semantics); nothing is said about an ill-formed packed-refs file"""
+    sem = ref_semantics(case["disk"])
+    if sem is None:
+        return []
+    out = []
+    pre = "refs/remotes/" + case["remote"] + "/"
+    want = sorted([n[len("refs/remotes/"):], sha] for n, sha in sem.items() if n.startswith(pre))
+    got = obs["bmap"]
+    if got[0] != "ok":
+        out.append(("refs-raise", f"make_branch_refs_map raised {got[1]} on a well-formed repository"))
+    elif got[1] != want:
+        bad = [x for x in got[1] if x not in want] + [x for x in want if x not in got[1]]
+        out.append(("branch-head-wrong", f"make_branch_refs_map: {bad[:2]} (heads by the ref files: {want[:6]})"))
+    table = {t: (n, b) for t, n, b in case["table"]}
+    want = sorted([sha, table[n[10:]][0], table[n[10:]][1]] for n, sha in sem.items()
+                  if n.startswith("refs/tags/") and n[10:] in table)
+    got = obs["tags"]
+    if got[0] != "ok":
+        out.append(("refs-raise", f"make_buildtags_map raised {got[1]} on a well-formed repository"))
+    elif got[1] != want:
+        bad = [x for x in got[1] if x not in want] + [x for x in want if x not in got[1]]
+        out.append(("tag-commit-wrong", f"make_buildtags_map: {bad[:2]} differ from the tags of the repository"))
+    return out
 
 
 def _uniq(out):
@@ -799,13 +1171,70 @@ REL_NAMES = ["1.2", "1.10", "1.9", "2.0", "10.250", "10.260", "9", "10", "01.2",
              "2", "B7", "b7", "10.250.1", "7.x", "x.7", "1..2", "1.2/hotfix", "1.2.9", "1.2.10", "10.250.2", "1.2.3.10", "1.2.3.9"]
 
 
+# search texts "as people type them": the property says "contains the search text", so characters that mean something to
+# a regular expression / glob / shell / SQL LIKE reading of the text must be taken literally, case and white space matter
+META = "()[].*+?|^$\\{}"
+META_TEXTS = ["fix(parser)", "v1.2", "[WIP]", "fix(", "C++", "now?", "a|b", "^BUG", "BUG-1$", "x{2}", "\\d", "1.*2", "(", ")",
+              "[", "]", "*", "+", "?", "\\", "a.b", ".", "BUG-1.", "$", "^", "|", "{", "[a-c]1", "(?i)bug", "a\\b", "\\bBUG",
+              "BUG-1\\", "[^x]", "a**", "(BUG)-1", "BUG[-]1", "%", "BUG_1", "BUG%", "b?g", "*BUG*", "#1", "'q'", "\"q\"",
+              " BUG-1", "BUG-1 ", "BUG\n1", "BUG-1\t", "é1", "BuG-1", "-1", "--", "a b"]
+
+
+def gen_text(rng):
+    r = rng.random()
+    if r < 0.55:
+        return rng.choice(META_TEXTS)
+    alpha = "ab1-" if r < 0.9 else "aB1- \né"
+    out = "".join(rng.choice(META) if rng.random() < 0.4 else rng.choice(alpha) for _ in range(rng.randrange(1, 7)))
+    return out
+
+
+def near_misses(text, rng):
+    """messages that tell the literal reading of [text] from other readings (regular expression, glob, LIKE pattern,
+    case-insensitive, stripped, per-line): most of them do NOT contain the text although another reading would match"""
+    out = []
+    plain = "".join(c for c in text if c not in META)
+    out.append(plain)                                            # fix(parser) -> fixparser ; [WIP] -> WIP
+    out.append(re.sub(r"[.?_%]", lambda m: rng.choice("xq7"), text))          # v1.2 -> v1x2 (regex '.', glob '?', LIKE '_')
+    out.append(re.sub(r".[?*]", "", text, flags=re.S))           # now? -> no ; ab*c -> ac
+    out.append(re.sub(r"(.)\+", lambda m: m.group(1) * rng.randrange(1, 4), text, flags=re.S))   # a+b -> aab
+    out.append(re.sub(r"[*%]", lambda m: rng.choice(["", "zz"]), text))      # 1.*2 / glob * / LIKE %
+    out.append(re.sub(r"\.\*", "--", text))
+    m = re.search(r"\[\^?([^\]]+)\]", text)
+    if m:
+        out.append(text[:m.start()] + rng.choice(m.group(1) + "Z") + text[m.end():])    # [WIP] -> W
+    if "|" in text:
+        out += [x for x in text.split("|")]                      # a|b -> a
+    out.append(text.lstrip("^").rstrip("$"))                      # ^BUG -> BUG...
+    out.append("x " + text.lstrip("^"))
+    out.append(re.sub(r"\{(\d+)\}", "", text))
+    out.append(re.sub(r"(.)\{(\d)\}", lambda m: m.group(1) * int(m.group(2)), text, flags=re.S))   # x{2} -> xx
+    out.append(re.sub(r"\\d", lambda m: rng.choice("0123456789"), text))
+    out.append(re.sub(r"\\b", "", text))
+    out.append(text.replace("\\", ""))
+    out.append(text.replace("\\", "\\\\"))
+    out.append(re.sub(r"\(\?[a-zA-Z]+\)", "", text).upper())
+    out += [text.upper(), text.lower(), text.swapcase(), text.strip(), " ".join(text.split()), text.replace("\n", " "),
+            text.replace(" ", "\n"), text[:-1], text[1:], text[::-1],
+            text.encode("ascii", "ignore").decode(), text.replace("-", "_"), text.replace("_", "-")]
+    if len(text) >= 2:
+        k = rng.randrange(1, len(text))
+        out += [text[:k] + "\n" + text[k:], text[:k] + " " + text[k:], text[:k] + text[k - 1] + text[k:]]
+    out = [x for x in out if x != text]
+    pre = rng.choice(["", "", "re: ", "subject\n\n"])
+    post = rng.choice(["", "", " done", "\nbody"])
+    return [pre + x + post for x in out]
+
+
 def gen_history(rng, n, *, p_merge=0.2, p_root=0.05, p_tag=0.25, p_match=0.35, nbranches=None, spread=None,
-                linear=False, remote="origin", p_clean=0.6):
+                linear=False, remote="origin", p_clean=0.6, p_meta=0.3):
     commits = []
     children = [0] * n
     children = list(children)
     build_no = rng.randrange(1, 50)
-    text = rng.choice(TEXTS)
+    text = gen_text(rng) if rng.random() < p_meta else rng.choice(TEXTS)
+    misses = near_misses(text, rng)
+    p_miss = rng.choice([0.0, 0.2, 0.5])
     spread = spread if spread is not None else rng.choice([100, 3600, DAY, 20 * DAY, WINDOW])
     times = sorted(rng.randrange(0, spread + 1) for _ in range(n))
     if rng.random() < 0.3:
@@ -839,6 +1268,8 @@ def gen_history(rng, n, *, p_merge=0.2, p_root=0.05, p_tag=0.25, p_match=0.35, n
         msg = rng.choice(MSGS)
         if rng.random() < p_match and text:
             msg = rng.choice(["", "re ", "subject line\n\nbody: "]) + text + rng.choice(["", " done", "7"])
+        elif misses and rng.random() < p_miss:
+            msg = rng.choice(misses)
         spec = {"p": ps, "m": msg, "t": T0 + times[i]}
         if rng.random() < p_tag:
             tags = []
@@ -960,11 +1391,127 @@ def gen_session(rng, n=None):
                 mine = [j for j, (nm, _) in enumerate(refs) if nm.startswith(remote + "/release/")
                         or nm in (remote + "/master", remote + "/main")]
             elif op == "text":
-                st["text"] = rng.choice(TEXTS)
+                st["text"] = gen_text(rng) if rng.random() < 0.4 else rng.choice(TEXTS)
+                for spec in commits:
+                    if rng.random() < 0.3:
+                        spec["m"] = rng.choice(near_misses(st["text"], rng) + [st["text"] + " x", "y " + st["text"]])
         st["sync"] = rng.random() < 0.5
         steps.append(st)
         cur = st
     return {"k": "session", "steps": steps}
+
+
+REMOTES = ["origin", "origin", "origin", "up-stream", "o.rg", "o[1]", "a+b", "a/b", "o*", "fork_1", "(x)", "o?", "o^", "$o", "o|p", "o{1}"]
+BRANCHES = ["master", "main", "release/1.2", "release/1.10", "release/10.250", "release/1.2/hotfix", "release/1.2+x", "release/[x]",
+            "release/a*", "release/9", "feature/x", "release/1.2.3", "HEADS", "release/v(1)", "release/1.2-rc.1", "release/$x",
+            "release/{1}", "release/1^2", "release/a|b", "release/q?"]
+JUNK_TAGS = ["v1.0", "v2.0", "build_x_release_1_2_success", "build_5_release_1_2_failed", "Build_5_master_success",
+             "xbuild_6_master_success", "build_7_master_success_old", "build_8_success", "nightly", "zz-last", "0-first",
+             "build__master_success", "release_1_2"]
+TAG_BRANCHES = ["release_1_2", "release_10_250", "master", "x", "release_1_2_3", "a_b", "release_1_x", "", "main-line"]
+
+
+def _mutate_packed(rng, text, table):
+    """an ill-formed / unusual packed-refs text: the model says what the code does with it (errors included);
+    build tags that are added are entered into [table]"""
+    def other():
+        return "".join(rng.choice(HEX) for _ in range(40))
+    lines = text.split("\n")
+    for _ in range(rng.choice([1, 1, 2, 3])):
+        pos = rng.randrange(len(lines) + 1)
+        r = rng.randrange(14)
+        if r == 0:
+            lines.insert(pos, "^" + other())                              # a peeled line anywhere (after a branch, first line)
+        elif r == 1:
+            lines.insert(pos, "^" + other()[:rng.choice([0, 7, 39])] + rng.choice(["", "00"]))   # wrong length
+        elif r == 2:
+            lines.insert(pos, rng.choice(["# comment", "# pack-refs with: sorted", "#", "# peeled", "#pack-refs peeled",
+                                          "  # pack-refs with: peeled ", "# PACK-REFS with: peeled"]))
+        elif r == 3:
+            lines.insert(pos, rng.choice([other(), "refs/tags/x", other() + "refs/heads/x"]))   # one field
+        elif r == 4 and lines:
+            lines.insert(pos, rng.choice(lines))                              # a repeated line (ref twice / peel twice)
+        elif r == 5:
+            lines.insert(pos, rng.choice(["", " ", "\t", "\x0b", "\x0c", " \r"]))
+        elif r == 6 and lines:
+            k = rng.randrange(len(lines))
+            lines[k] = rng.choice(["  ", "\t", ""]) + lines[k] + rng.choice(["  ", "\t", " \r", "\x0c"])
+        elif r == 7 and lines:
+            k = rng.randrange(len(lines))
+            lines[k] = lines[k].replace(" ", rng.choice(["\t", "   ", " \t ", "\x0b", "\x1f"]), 1)
+        elif r == 8:
+            lines.insert(pos, other() + " " + rng.choice(["refs/tags/a b", "refs/remotes/origin/release/a b", "refs/tags/",
+                                                          "refs/remotes/origin/", "refs/remotes/origin", "refs",
+                                                          "refs/tags/^x", "refs/tags/#x", "REFS/TAGS/build_1_master_success"]))
+        elif r == 9 and lines:
+            del lines[rng.randrange(len(lines))]                              # e.g. the header, or a ref before its peeled line
+        elif r == 10:
+            lines.insert(pos, rng.choice(["^", "^^" + other()[:39], "^ " + other()[:39], "^" + other() + " "]))
+        elif r == 11 and len(lines) > 1:
+            a, b = rng.randrange(len(lines)), rng.randrange(len(lines))
+            lines[a], lines[b] = lines[b], lines[a]                           # peeled lines travel
+        elif r == 12:
+            lines.insert(pos, other()[:rng.choice([7, 39])] + " refs/tags/build_9_master_success")    # short hexsha
+            table.append(["build_9_master_success", 9, "master"])
+        else:
+            n = rng.randrange(1, 99)
+            lines.insert(pos, other() + " refs/tags/build_%d_master_success" % n + "\n^" + other() + "\n^" + other())
+            table.append(["build_%d_master_success" % n, n, "master"])
+    sep = rng.choice(["\n", "\n", "\n", "\r\n", "\r"])
+    return sep.join(lines)
+
+
+def gen_refs_case(rng):
+    """the refs layer alone: a '.git' directory (packed-refs text + loose ref files) and the prefixes asked for"""
+    def other():
+        return "".join(rng.choice(HEX) for _ in range(40))
+    remote = rng.choice(REMOTES)
+    others = rng.sample([r for r in REMOTES + [remote + "2", remote + "/sub", "zz", remote[:-1] or "o"] if r != remote], rng.choice([0, 1, 2]))
+    shas = [other() for _ in range(rng.randrange(1, 6))]
+    branches, seen = [], []
+    for r in [remote] * 3 + others:
+        for b in rng.sample(BRANCHES, rng.randrange(0, 4)):
+            n = f"refs/remotes/{r}/{b}"
+            if n not in seen:
+                seen.append(n)
+                branches.append((n, rng.choice(shas)))
+    tags, table = [], []
+    for j in range(rng.choice([0, 1, 2, 4, 6])):
+        if rng.random() < 0.7:
+            n, b = rng.randrange(1, 3000), rng.choice(TAG_BRANCHES)
+            t = f"build_{n}_{b}_success"
+            if t in [x for x, _ in tags]:
+                continue
+            table.append([t, n, b])
+        else:
+            t = rng.choice(JUNK_TAGS)
+            if t in [x for x, _ in tags]:
+                continue
+        tags.append((t, rng.choice(shas)))
+    rng.shuffle(branches)
+    disk = gen_layout(rng, branches, tags)
+    if disk["packed"] is not None and rng.random() < 0.4:
+        disk["packed"] = _mutate_packed(rng, disk["packed"], table)
+    pre_r = f"refs/remotes/{remote}/"
+    prefixes = rng.choice([[pre_r], [pre_r], ["refs/tags/"], ["refs/tags/"], [pre_r, "refs/tags/"], ["refs/tags/", pre_r],
+                           ["refs/"], ["refs/remotes/"], ["refs/remotes/", pre_r], [pre_r, pre_r], [], ["refs/tags"],
+                           [pre_r[:-1]], ["refs/tags/build_"], ["refs/heads/", "refs/tags/", pre_r], ["tags/"],
+                           [pre_r + "release/"], ["refs/tags/", "refs/tags/build_1"], ["refs/remotes/" + (others[0] if others else "zz") + "/", pre_r]])
+    return {"k": "refs", "disk": disk, "prefixes": prefixes, "remote": remote, "table": table}
+
+
+def with_disk(rng, case):
+    """the same repository state, its refs written to a '.git' directory and read by the library's own GitRepo"""
+    if case["k"] == "session":
+        disks = [case_layout(rng, st) for st in case["steps"]]
+        if all(d is not None for d in disks):
+            for st, d in zip(case["steps"], disks):
+                st["disk"] = d
+        return case
+    d = case_layout(rng, case)
+    if d is not None:
+        case["disk"] = d
+    return case
 
 
 def gen_cases(rng, tier):
@@ -1006,36 +1553,55 @@ def gen_cases(rng, tier):
             kw["p_merge"] = 0.45
         if rng.random() < 0.2:
             kw["p_tag"] = 0.6
-        cases.append(gen_history(rng, n, **kw))
+        if rng.random() < 0.1:
+            kw["remote"] = rng.choice(REMOTES)
+        c = gen_history(rng, n, **kw)
+        if rng.random() < 0.3:
+            c = with_disk(rng, c)
+        cases.append(c)
     # one collection, several reports on a changing repository
     for _ in range(800 if big else 70):
-        cases.append(gen_session(rng))
+        c = gen_session(rng)
+        if rng.random() < 0.35:
+            c = with_disk(rng, c)
+        cases.append(c)
+    # the refs layer alone (packed-refs text, loose ref files), ill-formed files included
+    for _ in range(1500 if big else 150):
+        cases.append(gen_refs_case(rng))
     return cases
 
 
 def search_cases(rng, tier):
     out = []
     for _ in range(3000):
-        out.append(gen_history(rng, rng.randrange(2, 14)))
+        c = gen_history(rng, rng.randrange(2, 14))
+        out.append(with_disk(rng, c) if rng.random() < 0.3 else c)
     for _ in range(1500):
-        out.append(gen_session(rng, rng.randrange(2, 10)))
+        c = gen_session(rng, rng.randrange(2, 10))
+        out.append(with_disk(rng, c) if rng.random() < 0.3 else c)
+    for _ in range(1500):
+        out.append(gen_refs_case(rng))
     return out
 
 
 def kind(case):
     if case["k"] == "session":
-        return f"session:reports={len(case['steps'])}"
+        return f"session{'-disk' if 'disk' in case['steps'][0] else ''}:reports={len(case['steps'])}"
+    if case["k"] == "refs":
+        return "refs:" + ("well-formed" if ref_semantics(case["disk"]) is not None else "ill-formed")
     if case["k"] != "report":
         return case["k"]
     n = len(case["commits"])
     merges = sum(1 for c in case["commits"] if len(c["p"]) > 1)
-    return f"report:{'dag' if merges else 'linear'}:n{'<8' if n < 8 else '<20' if n < 20 else '>=20'}"
+    return f"report{'-disk' if 'disk' in case else ''}:{'dag' if merges else 'linear'}:n{'<8' if n < 8 else '<20' if n < 20 else '>=20'}"
 
 
 def nontrivial(case, obs):
     if case["k"] == "session":
         oks = [o["r"][1] for o in obs.get("steps", []) if o.get("r") and o["r"][0] == "ok"]
         return len(oks) >= 2 and any(sum(len(b) for _, b in r) >= 2 for r in oks) and any(a != b for a, b in zip(oks, oks[1:]))
+    if case["k"] == "refs":
+        return any(obs.get(f, ["err"])[0] == "ok" and len(obs[f][1]) >= 2 for f in ("bmap", "tags"))
     if case["k"] != "report":
         return case["k"] == "cmp" and case["a"] != case["b"]
     r = obs.get("r")
@@ -1048,6 +1614,9 @@ def nontrivial(case, obs):
 def outcome(case, obs):
     if "__hang__" in obs:
         return "hang"
+    if case["k"] == "refs":
+        errs = sorted({obs[f][1] for f in ("iter", "packed", "bmap", "tags") if obs[f][0] != "ok"})
+        return "refs:" + ("+".join(errs) if errs else "ok")
     if case["k"] == "session":
         rs = [o["r"] for o in obs["steps"]]
         if any(r[0] != "ok" for r in rs):
@@ -1064,7 +1633,48 @@ def outcome(case, obs):
     return f"report:branches={min(len(r[1]), 4)}:builds={'0' if not nbuilds else '1-3' if nbuilds < 4 else '4+'}:notmerged={'y' if nm else 'n'}"
 
 
+def _shrink_disk(disk):
+    """one line of packed-refs less / one loose file less / no packed-refs"""
+    text = disk.get("packed")
+    if text is not None:
+        lines = text.split("\n")
+        for j in reversed(range(len(lines))):
+            d = dict(disk)
+            d["packed"] = "\n".join(lines[:j] + lines[j + 1:])
+            yield d
+    for j in range(len(disk["loose"])):
+        d = dict(disk)
+        d["loose"] = disk["loose"][:j] + disk["loose"][j + 1:]
+        yield d
+
+
 def shrink_candidates(case):
+    if case["k"] == "refs":
+        for d in _shrink_disk(case["disk"]):
+            c = dict(case)
+            c["disk"] = d
+            yield c
+        return
+    if case["k"] == "report" and "disk" in case:
+        c = dict(case)
+        c.pop("disk")
+        yield c
+        for c in _shrink_plain(case):
+            yield relayout(c)
+        return
+    if case["k"] == "session" and "disk" in case["steps"][0]:
+        c = dict(case)
+        c["steps"] = [{k2: v for k2, v in st.items() if k2 != "disk"} for st in case["steps"]]
+        yield c
+        for c in _shrink_plain(case):
+            c = dict(c)
+            c["steps"] = [relayout(st) for st in c["steps"]]
+            yield c
+        return
+    yield from _shrink_plain(case)
+
+
+def _shrink_plain(case):
     if case["k"] == "session":
         steps = case["steps"]
         for j in reversed(range(len(steps))):
